@@ -8,6 +8,7 @@ import warnings
 
 import numpy as np
 
+from mc import seqdiff
 from mc.common import HarnessError, Stats, pmap, safe
 
 PROPERTY = 'C12'
@@ -16,7 +17,7 @@ RULE = ('FeatureTransformerGeneric.construct_new_features on every column of len
         'by {g, g-1e-9, g+1e-9} (every where(X<g)/where(X>g) boundary hit exactly and from both sides), for the minimal, default and fw-transformers '
         'presets, every emitted/dropped column judged against an independent scalar formula table keyed by the transformer NAME; one probe column per fw '
         'family containing all thresholds and their neighbours; keep/drop rule on all multisets of length 4..8 (two row orders); every list of <= 3 '
-        'preset names (with repetition, every order). distinct_nontrivial = distinct (column, transformer) pairs whose reference output has >= 2 distinct values')
+        'preset names (with repetition, every order); sequence differential over <= 3 successive constructor+transform calls with different presets. distinct_nontrivial = distinct (column, transformer) pairs whose reference output has >= 2 distinct values')
 ASSUMPTIONS = ['numeric agreement rtol 1e-9 after parsing the emitted text back to float; NaN == NaN, inf == inf',
                'keep/drop decisions where value-based and text-based distinctness disagree (0.0 vs -0.0) or reference values differ by < 1e-9 relative are classified ambiguous and not judged']
 
@@ -320,8 +321,26 @@ def _presets_job(_):
     return st
 
 
+SEQ_MENU = [(('1', '2', '4', '0.5'), 'minimal'), (('', '"3"', '9', '0.02'), 'default'), (('1', '2', '4', '0.5'), 'minimal,default'), (('5', '6', '1', '0.16'), 'fw-transformers'),
+            (('1', '2', '4', '0.5'), 'default,minimal'), (('2', '2', '3', '1'), 'minimal')]
+
+
+def seq_call(x):
+    cells, preset = x
+    tr, out = run_transform(cells, preset)
+    return {'selected': sorted(tr.transformer_collection), 'frame': {str(c): [str(v) for v in out[c].tolist()] for c in out.columns}}
+
+
+def _seqdiff(_):
+    st = Stats()
+    seqdiff.run(seq_call, SEQ_MENU, 3, st, lambda seq, pos: {'kind': 'seqdiff', 'seq': list(seq)}, {'kind': 'history_dependent'})
+    return st
+
+
 def _dispatch(item):
     k, job = item
+    if k == 'seqdiff':
+        return _seqdiff(job)
     return {'cols': _cols_job, 'probe': _probe_job, 'rule': _rule_job, 'presets': _presets_job}[k](job)
 
 
@@ -343,6 +362,7 @@ def run(ctx):
     nms = sum(math.comb(n + 3, 3) for n in range(4, 9))
     jobs += [('rule', (lo, min(nms, lo + 60))) for lo in range(0, nms, 60)]
     jobs.append(('presets', None))
+    jobs.append(('seqdiff', None))
     for st in pmap(_dispatch, jobs):
         ctx.stats.merge(st)
     ctx.extra['fw_column_length'] = maxlen
@@ -353,6 +373,8 @@ def run(ctx):
 
 def eval_case(case):
     st = Stats()
+    if case['kind'] == 'seqdiff':
+        return seqdiff.replay(seq_call, SEQ_MENU, case['seq'])
     if case['kind'] == 'preset':
         from outrank.feature_transformations import feature_transformer_vault as vault
         from outrank.feature_transformations.ranking_transformers import FeatureTransformerGeneric
